@@ -111,6 +111,7 @@ pub fn rtx(tier: Tier, max_retx: usize, grown: bool, depth: usize) -> Driver {
         state(AckSpec::Cur, def, SackSpec::FirstN(1)),
         state(AckSpec::Cur, def, SackSpec::Raw(vec![0b10, 0, 0, 0, 0, 0, 0, 0])),
         state(AckSpec::Cur, def, SackSpec::AllSent),
+        state(AckSpec::Cur, def, SackSpec::Raw(vec![0b0001_1101, 0, 0, 0, 0, 0, 0, 0])),
         Act::Tick,
         Act::Wait(50),
         Act::Shutdown,
@@ -122,6 +123,66 @@ pub fn rtx(tier: Tier, max_retx: usize, grown: bool, depth: usize) -> Driver {
         vec![]
     };
     Driver { name: format!("rtx-retx{max_retx}-{}", if grown { "grown" } else { "fresh" }), cfg, prefix, alphabet, depth, state_cap: tier.pick(400_000, 6_000_000) }
+}
+
+/// After a retransmission timeout that hit during fast recovery (C06: fast retransmit must work again
+/// once the timeout recovery is over).
+pub fn rtx_after_recovery_rto(tier: Tier, depth: usize) -> Driver {
+    let mut d = rtx(tier, 5, true, depth);
+    let def = WndSpec::Default;
+    d.name = "rtx-after-recovery-rto".into();
+    d.prefix.push(state(AckSpec::Cur, def, SackSpec::Raw(vec![0b0001_1101, 0, 0, 0, 0, 0, 0, 0])));
+    d.prefix.push(Act::Tick);
+    d.alphabet = vec![
+        state(AckSpec::All, def, SackSpec::None),
+        Act::Write(3 * MSS),
+        state(AckSpec::Cur, def, SackSpec::None),
+        state(AckSpec::Cur, def, SackSpec::FirstN(1)),
+        state(AckSpec::Cur, def, SackSpec::AllSent),
+        state(AckSpec::Plus(1), def, SackSpec::None),
+        Act::Tick,
+    ];
+    d
+}
+
+/// Sender side with a large peer window: slow start and reordering (SACK then cumulative ACK).
+pub fn tx_slowstart(tier: Tier, depth: usize) -> Driver {
+    let mut cfg = SoloCfg::tiny(MSS);
+    cfg.tx_init = 32 * MSS;
+    cfg.tx_max = 32 * MSS;
+    let def = WndSpec::Default;
+    let alphabet = vec![
+        Act::Write(3 * MSS),
+        Act::Write(8 * MSS),
+        state(AckSpec::All, def, SackSpec::None),
+        state(AckSpec::Plus(1), def, SackSpec::None),
+        state(AckSpec::Plus(2), def, SackSpec::None),
+        state(AckSpec::Cur, def, SackSpec::FirstN(1)),
+        state(AckSpec::Cur, def, SackSpec::Raw(vec![0b10, 0, 0, 0, 0, 0, 0, 0])),
+        Act::Tick,
+    ];
+    Driver { name: "tx-slowstart".into(), cfg, prefix: vec![], alphabet, depth, state_cap: tier.pick(400_000, 6_000_000) }
+}
+
+/// Window-limited sender whose segment size grows because the peer uses larger payloads.
+pub fn tx_window_mtu(tier: Tier, depth: usize) -> Driver {
+    let mut cfg = SoloCfg::tiny(MSS);
+    cfg.link_mtu = 700;
+    cfg.rx_buf = 64 * 1024;
+    cfg.tx_init = 64 * 1024;
+    cfg.tx_max = 64 * 1024;
+    cfg.peer_wnd = 2 * 528;
+    let w = WndSpec::Bytes(2 * 528);
+    let alphabet = vec![
+        Act::Write(3000),
+        state(AckSpec::All, w, SackSpec::None),
+        state(AckSpec::Plus(1), w, SackSpec::None),
+        state(AckSpec::Cur, w, SackSpec::None),
+        Act::Deliver(Pkt::DataLen { off: 0, len: 560 }),
+        Act::Deliver(Pkt::DataLen { off: 0, len: 100 }),
+        Act::Tick,
+    ];
+    Driver { name: "tx-window-mtu".into(), cfg, prefix: vec![], alphabet, depth, state_cap: tier.pick(300_000, 4_000_000) }
 }
 
 /// Handshake / teardown from a given initial state.
@@ -321,6 +382,8 @@ pub fn mtu(tier: Tier, link_mtu: usize, path_limit: Option<usize>, emsgsize: Opt
         Act::Deliver(Pkt::DataLen { off: 0, len: 100 }),
         Act::Deliver(Pkt::DataLen { off: 0, len: 560 }),
         Act::Deliver(Pkt::DataLen { off: 0, len: 2000 }),
+        state(AckSpec::Cur, def, SackSpec::AllSent),
+        state(AckSpec::Cur, def, SackSpec::Raw(vec![0b10, 0, 0, 0, 0, 0, 0, 0])),
     ];
     if path_limit.is_none() {
         alphabet[1] = state(AckSpec::All, def, SackSpec::None);
@@ -344,6 +407,9 @@ pub fn all_drivers(tier: Tier) -> Vec<Driver> {
     v.push(tx_window(tier, false, 10, 6));
     v.push(rtx(tier, 2, false, 7));
     v.push(rtx(tier, 5, true, 7));
+    v.push(rtx_after_recovery_rto(tier, 7));
+    v.push(tx_slowstart(tier, 6));
+    v.push(tx_window_mtu(tier, 6));
     v.extend(fsm_all(tier, 5));
     v.push(nagle(tier, true, 6));
     v.push(nagle(tier, false, 6));
